@@ -19,7 +19,7 @@ import re
 from lib import core
 
 DRIVER = "drv_grid"
-LEAN_TARGETS = ["OmplModel.Props.C13", DRIVER, "drv_discretization", "drv_kpiece"]
+LEAN_TARGETS = ["OmplModel.Props.C13", DRIVER, "drv_discretization", "drv_kpiece", "drv_lbkpiece"]
 CMPS = ["less", "greater", "div4", "mod16"]
 EVS = ["none", "lo", "hi"]
 FAR = 1 << 30
@@ -1507,6 +1507,442 @@ def judge_kpiece(ck, hbin, p, tag, pre=None):
     return True
 
 
+# ================================================================================== engine 4: LBKPIECE1
+LB_DRIVER = "drv_lbkpiece"
+STATUS_NAME["Invalid goal"] = "INVALID_GOAL"
+
+
+def gen_lbkpiece(rng):
+    n = rng.choice([2, 2, 3])
+    lo = [rng.choice([0.0, -1.0, 0.0]) for _ in range(n)]
+    hi = [lo[i] + rng.choice([1.0, 2.0, 1.0]) for i in range(n)]
+    boxes = []
+    for _ in range(rng.choice([0, 1, 1, 2, 3])):
+        c = [rng.uniform(lo[i], hi[i]) for i in range(n)]
+        h = [rng.uniform(0.04, 0.22) * (hi[i] - lo[i]) for i in range(n)]
+        boxes.append([c[i] - h[i] for i in range(n)] + [c[i] + h[i] for i in range(n)])
+    pt = lambda: [rng.uniform(lo[i], hi[i]) for i in range(n)]
+    starts = [pt() for _ in range(rng.choice([1, 1, 2, 3]))]
+    goals = [pt() for _ in range(rng.choice([1, 1, 2, 3]))]
+    if rng.chance(1, 6):
+        starts[rng.below(len(starts))][0] = hi[0] + 0.5
+    if boxes and rng.chance(1, 4):
+        b = rng.choice(boxes)
+        (starts if rng.chance(1, 2) else goals).insert(0, [(b[i] + b[n + i]) / 2 for i in range(n)])   # inside an obstacle
+    if rng.chance(1, 30):
+        starts = [[hi[0] + 1.0] + [lo[i] for i in range(1, n)]]
+    if boxes and rng.chance(1, 25):
+        b = boxes[0]
+        goals = [[(b[i] + b[n + i]) / 2 for i in range(n)]]      # no valid goal at all
+    return {"n": n, "lo": lo, "hi": hi, "boxes": boxes, "starts": starts, "goals": goals,
+            "res": rng.choice([0.01, 0.02, 0.05]), "range": rng.choice([0.0, 0.2, 0.4, 0.8]),
+            "bf": rng.choice([0.9, 0.5, 1.0, 0.2]), "mvf": rng.choice([0.5, 0.2, 0.05, 0.9, 1.0]),
+            "seeds": [rng.below(1 << 30) + 1 for _ in range(4)], "iters": rng.choice([0, 2, 8, 30, 80, 200, 400])}
+
+
+def lbkpiece_script(p):
+    b = core.f2bits
+    n = p["n"]
+    L = ["lbkpiece", "dim %d" % n, "bounds " + " ".join(map(b, p["lo"] + p["hi"])),
+         ("boxes %d " % len(p["boxes"]) + " ".join(b(v) for bx in p["boxes"] for v in bx)).strip(), "res " + b(p["res"])]
+    for s_ in p["starts"]:
+        L.append("start " + " ".join(map(b, s_)))
+    for s_ in p["goals"]:
+        L.append("goal " + " ".join(map(b, s_)))
+    L += ["range " + b(p["range"]), "bf " + b(p["bf"]), "mvf " + b(p["mvf"]), "seeds %d %d %d %d" % tuple(p["seeds"]),
+          "iters %d" % p["iters"], "go"]
+    return L
+
+
+def lb_parse(out):
+    """-> dict(cfg, starts, goals, segs=[(events, st_line)], final, tail_events)"""
+    R = {"cfg": None, "starts": [], "goals": [], "segs": [], "final": None, "last_events": [], "final_st": None}
+    ev = []
+    for ln in out:
+        if ln.startswith("cfg "):
+            R["cfg"] = dict(t.split("=") for t in ln.split()[1:])
+        elif ln.startswith("goalstate "):
+            R["goals"].append(dict(t.split("=") for t in ln.split()[1:]))
+        elif ln.startswith("start "):
+            R["starts"].append(dict(t.split("=") for t in ln.split()[1:]))
+        elif ln.startswith("ev "):
+            t = ln.split()
+            ev.append((t[1], dict(z.split("=") for z in t[2:])))
+        elif ln.startswith("st "):
+            if R["final"] is None:
+                R["segs"].append((ev, ln))
+                ev = []
+            else:
+                R["final_st"] = ln
+        elif ln.startswith("final "):
+            m = re.fullmatch(r"final status=(.*?) nsol=(\d+) approx=(\d) heads=(\d+) path=(\S+)", ln)
+            if m:
+                R["final"] = {"status": m.group(1), "nsol": int(m.group(2)), "approx": int(m.group(3)), "heads": int(m.group(4)),
+                              "path": m.group(5)}
+            R["last_events"] = ev
+            ev = []
+    return R
+
+
+def lb_iterations(R):
+    """[(events, state line after the iteration)] -- the first segment's events are the start motions"""
+    its = []
+    segs = R["segs"]
+    for k in range(1, len(segs)):
+        its.append(segs[k])
+    if R["last_events"] and segs:
+        its.append((R["last_events"], R["final_st"]))
+    return its
+
+
+def lb_model_script(p, R):
+    b = core.f2bits
+    L = ["lbkpiece pdim=%s bf=%s mvf=%s seeds=%d,%d,%d" % (R["cfg"]["pdim"], b(p["bf"]), b(p["mvf"]), p["seeds"][0], p["seeds"][1], p["seeds"][2])]
+    for st in R["starts"]:
+        L.append("start %s %s" % (st["state"], st["ok"]))
+    for g in R["goals"]:
+        L.append("goal %s %s" % (g["state"], g["ok"]))
+
+    def emit(events):
+        near = None
+        for k, e in events:
+            if k == "proj":
+                L.append("proj %s %s" % (e["s"], e["c"]))
+            elif k == "cm":
+                L.append("cm %s %s %s %s %s" % (e["a"], e["b"], e["r"], e["frac"], e["lv"]))
+            elif k == "near":
+                near = e["x"]
+        return near
+    first = R["segs"][0][0] if R["segs"] else R["last_events"]
+    emit(first)
+    L.append("begin")
+    for events, _st in lb_iterations(R):
+        # the oracle answers of an iteration are sent ahead of its `it` line
+        near = emit(events)
+        L.append("it %s" % (near if near is not None else "0"))
+    L.append("fin")
+    return L
+
+
+def lb_lines(R):
+    f = R["final"]
+    if f is None or R["final_st"] is None:
+        return None
+    name = STATUS_NAME.get(f["status"], f["status"])
+    fin = "final status=%s path=%s | %s" % (name, f["path"], R["final_st"])
+    if not R["segs"]:
+        pre = {"INVALID_START": "invalid-start ", "INVALID_GOAL": "invalid-goal "}.get(name, "")
+        return [pre + R["final_st"], fin]
+    return [R["segs"][0][1]] + [st for _ev, st in lb_iterations(R)] + [fin]
+
+
+def lb_parse_state(st_line):
+    """-> dict(goals, S=disc dict, G=disc dict, motions={id: None|dict}, freed=[ids])"""
+    sec = st_line[3:].split(" || ")
+    out = {"goals": int(sec[0].split("=")[1])}
+    for key, body in (("S", sec[1][2:]), ("G", sec[2][2:])):
+        parts = body.split(" | ")
+        kv = dict(t.split("=", 1) for t in parts[0].split())
+        t = parts[1].split()
+        cells = {}
+        for tok in t[1:]:
+            f = tok.split(":")
+            xy, nb, bd, ms, cov, sel, sc, it, imp = f
+            cells[tuple(map(int, xy.split(".")))] = {"nbrs": int(nb), "border": bd == "1",
+                                                     "motions": [] if ms == "-" else list(map(int, ms.split(","))),
+                                                     "cov": core.bits2f(cov), "sel": int(sel), "score": core.bits2f(sc),
+                                                     "iter": int(it), "imp": core.bits2f(imp)}
+        kq = dict(t_.split("=", 1) for t_ in parts[2].split())
+        ck_ = lambda v: [] if v == "-" else [tuple(map(int, z.split("."))) for z in v.split(",")]
+        out[key] = {"size": int(kv["size"]), "iter": int(kv["iter"]), "tbl": int(kv["tbl"]), "cells": cells, "I": ck_(kq["I"]), "E": ck_(kq["E"])}
+    t = sec[3].split()
+    motions = {}
+    for tok in t[2:]:
+        f = tok.split(":")
+        if f[1] == "x":
+            motions[int(f[0])] = None
+        else:
+            motions[int(f[0])] = {"tree": f[1], "parent": f[2], "valid": f[3] == "1", "state": f[4],
+                                  "children": [] if f[5] == "-" else f[5].split(",")}
+    fr = sec[4].split("=")[1]
+    out["motions"] = motions
+    out["freed"] = [] if fr == "-" else list(map(int, fr.split(",")))
+    return out
+
+
+def lbkpiece_oracle(p, R, stats=None):
+    import math
+    n = p["n"]
+    lo, hi = p["lo"], p["hi"]
+    ext = 0.0
+    for i in range(n):
+        d_ = hi[i] - lo[i]
+        ext += d_ * d_
+    seg = math.sqrt(ext) * p["res"]
+
+    def valid(v):
+        for bx in p["boxes"]:
+            if all(bx[i] <= v[i] <= bx[n + i] for i in range(n)):
+                return False
+        return True
+
+    def inb(v):
+        return all(lo[i] <= v[i] <= hi[i] for i in range(n))
+
+    def dist(a, b_):
+        acc = 0.0
+        for i in range(n):
+            df = a[i] - b_[i]
+            acc += df * df
+        return math.sqrt(acc)
+
+    def interp(a, b_, t):
+        return [a[i] + (b_[i] - a[i]) * t for i in range(n)]
+
+    def check_motion(a, b_):
+        nd = int(math.ceil(dist(a, b_) / seg))
+        for j in range(1, nd):
+            if not valid(interp(a, b_, float(j) / float(nd))):
+                fr = float(j - 1) / float(nd)
+                return False, fr, interp(a, b_, fr)
+        if not valid(b_):
+            if nd == 0:
+                return False, None, None
+            fr = float(nd - 1) / float(nd)
+            return False, fr, interp(a, b_, fr)
+        return True, 0.0, b_
+
+    cs = [(hi[i] - lo[i]) / 20.0 for i in range(2)]
+    coord = lambda v: tuple(int(math.floor(v[i] / cs[i])) for i in range(2))
+    sb = lambda v: ",".join(core.f2bits(z) for z in v)
+    f = R["final"]
+    if f is None or R["final_st"] is None:
+        return (0, "the planner run did not finish (crash or sanitizer report)")
+    name = STATUS_NAME.get(f["status"], f["status"])
+    okstarts, okgoals = [], []
+    for k, st in enumerate(R["starts"]):
+        v = kp_state(st["state"])
+        if (inb(v) and valid(v)) != (st["ok"] == "1"):
+            return (0, "start %d: input filter answered %s" % (k, st["ok"]))
+        if st["ok"] == "1":
+            okstarts.append(st["state"])
+    for k, g in enumerate(R["goals"]):
+        v = kp_state(g["state"])
+        if (inb(v) and valid(v)) != (g["ok"] == "1"):
+            return (0, "goal state %d: input filter answered %s" % (k, g["ok"]))
+        if g["ok"] == "1":
+            okgoals.append(g["state"])
+    if not okstarts:
+        return None if (name == "INVALID_START" and f["nsol"] == 0) else (0, "no valid start, yet status %s" % f["status"])
+    lines = [R["segs"][0]] + lb_iterations(R) if R["segs"] else []
+    if not lines:
+        return (0, "valid starts but no state dump")
+    okcm = set()       # (a, b) answered valid during the run
+    readd = set()      # (a, lastValid state) of a failed motion whose valid fraction exceeds minValidPathFraction
+    prev = None
+    for j, (events, st_line) in enumerate(lines):
+        for k, e in events:
+            if k == "cm":
+                a, b_ = kp_state(e["a"]), kp_state(e["b"])
+                r, fr, lv = check_motion(a, b_)
+                if r != (e["r"] == "1") or (not r and fr is not None and (core.bits2f(e["frac"]) != fr or e["lv"] != sb(lv))):
+                    return (j, "checkMotion(%s, %s) answered r=%s frac=%r, recomputed r=%s frac=%r" % (a, b_, e["r"], core.bits2f(e["frac"]), r, fr))
+                if r:
+                    okcm.add((e["a"], e["b"]))
+                elif core.bits2f(e["frac"]) > p["mvf"]:
+                    readd.add((e["a"], e["lv"]))
+                if stats is not None:
+                    stats["lb:checkMotion:" + ("valid" if r else "invalid")] += 1
+            elif k == "proj":
+                if coord(kp_state(e["s"])) != tuple(map(int, e["c"].split(","))):
+                    return (j, "projection coordinate of %s answered %s" % (e["s"], e["c"]))
+        try:
+            Dm = lb_parse_state(st_line)
+        except Exception as e_:   # noqa
+            return (j, "unreadable state dump: %s" % e_)
+        ms = Dm["motions"]
+        alive = {i: m for i, m in ms.items() if m is not None}
+        if stats is not None and j > 0:
+            stats["lb:iterations"] += 1
+            if prev is not None:
+                gone = [i for i, m in prev["motions"].items() if m is not None and ms.get(i) is None]
+                if gone:
+                    stats["lb:iterations-with-removal"] += 1
+                    stats["lb:motions-removed"] += len(gone)
+        # ---- tree structure, valid flags, removal of whole subtrees
+        for i, m in alive.items():
+            if "?" in m["children"] or m["parent"] == "?":
+                return (j, "motion %d points to a freed motion (parent %s, children %s)" % (i, m["parent"], m["children"]))
+            par = int(m["parent"])
+            if par < 0:
+                roots = okstarts if m["tree"] == "S" else okgoals
+                if not m["valid"] or m["state"] not in roots:
+                    return (j, "motion %d has no parent but is not a root of the %s tree (valid=%s): its parent was removed without it"
+                            % (i, m["tree"], m["valid"]))
+            else:
+                pm = alive.get(par)
+                if pm is None or pm["tree"] != m["tree"] or par >= i:
+                    return (j, "motion %d: parent %d is %s" % (i, par, "freed" if pm is None else "in the other tree"))
+                if m["valid"] and (pm["state"], m["state"]) not in okcm and (pm["state"], m["state"]) not in readd:
+                    return (j, "motion %d is flagged valid but checkMotion(parent %d, it) was never answered valid (nor is it a re-added last valid state)" % (i, par))
+            kids = sorted(k_ for k_, c in alive.items() if c["parent"] == str(i))
+            if list(map(int, m["children"])) != kids:
+                return (j, "motion %d: children %s, the alive motions whose parent it is are %s" % (i, m["children"], kids))
+        dead = sorted(i for i, m in ms.items() if m is None)
+        if sorted(Dm["freed"]) != dead or len(set(Dm["freed"])) != len(Dm["freed"]):
+            return (j, "freed motions %s (each must be freed once), motions no longer stored %s" % (Dm["freed"], dead))
+        # ---- both discretizations
+        for key in ("S", "G"):
+            Dd = Dm[key]
+            want = {}
+            for i, m in sorted(alive.items()):
+                if m["tree"] == key:
+                    want.setdefault(coord(kp_state(m["state"])), []).append(i)
+            got = {x: c["motions"] for x, c in Dd["cells"].items()}
+            if got != want:
+                empt = [x for x, v in got.items() if not v]
+                return (j, "%s discretization: %s" % (key, ("an empty cell stays in the grid at %s" % (empt[0],)) if empt else
+                                                     "cells hold %s, the stored motions by coordinate are %s" % (sorted(got.items()), sorted(want.items()))))
+            if Dd["size"] != sum(len(v) for v in want.values()):
+                return (j, "%s discretization: size_=%d with %d motions stored" % (key, Dd["size"], sum(len(v) for v in want.values())))
+            for x, c in Dd["cells"].items():
+                cnt = sum(1 for y in nb_coords(x) if y in got)
+                if c["nbrs"] != cnt or c["border"] != (cnt < 4):
+                    return (j, "%s cell %s: neighbors=%d border=%s, definition gives %d" % (key, x, c["nbrs"], c["border"], cnt))
+                if c["cov"] < len(c["motions"]):
+                    return (j, "%s cell %s: coverage %g with %d motions" % (key, x, c["cov"], len(c["motions"])))
+                if not any(((float(cnt + 1) * c["cov"]) * float(s_)) != 0.0 and c["score"] / ((float(cnt + 1) * c["cov"]) * float(s_)) == c["imp"]
+                           for s_ in range(c["sel"], 0, -1)):
+                    return (j, "%s cell %s: importance %r does not follow from score %r, %d neighbours, coverage %g and <= %d selections"
+                            % (key, x, c["imp"], c["score"], cnt, c["cov"], c["sel"]))
+            I, E = Dd["I"], Dd["E"]
+            if sorted(I + E) != sorted(Dd["cells"]) or any(not Dd["cells"][c]["border"] for c in E) or any(Dd["cells"][c]["border"] for c in I):
+                return (j, "%s discretization: queues do not split the cells by border flag" % key)
+            for arr in (I, E):
+                for c in arr:
+                    if Dd["cells"][c]["imp"] > Dd["cells"][arr[0]]["imp"]:
+                        return (j, "%s discretization: cell %s tops a queue although %s has a larger importance" % (key, arr[0], c))
+            if Dd["cells"] and not E:
+                return (j, "%s discretization: no border cell" % key)
+        prev = Dm
+    # ---- the report
+    if f["nsol"] > 0:
+        if name != "EXACT_SOLUTION" or f["approx"]:
+            return (len(lines), "a solution was added but the status is %s (approximate=%d)" % (f["status"], f["approx"]))
+        path = f["path"].split(";")
+        if path[0] not in okstarts or path[-1] not in okgoals:
+            return (len(lines), "the reported path does not lead from a valid start to a valid goal state")
+        for a, b_ in zip(path, path[1:]):
+            if not ((a, b_) in okcm or (b_, a) in okcm or (a, b_) in readd or (b_, a) in readd):
+                r1 = check_motion(kp_state(a), kp_state(b_))[0]
+                return (len(lines), "reported path: the motion %s -> %s was never answered valid by checkMotion during the run (lazy validation "
+                                    "skipped it; recomputed now: %s)" % ([repr(z) for z in kp_state(a)], [repr(z) for z in kp_state(b_)],
+                                                                        "valid" if r1 else "INVALID"))
+        if stats is not None:
+            stats["lb:status:EXACT_SOLUTION"] += 1
+            stats["lb:path-states"] += len(path)
+    else:
+        if name == "EXACT_SOLUTION":
+            return (len(lines), "status Exact solution without a solution path")
+        if name == "INVALID_GOAL" and okgoals and len(R["goals"]) > 0 and R["goals"][0]["ok"] == "1":
+            return (len(lines), "INVALID_GOAL although the first goal state is valid")
+        if stats is not None:
+            stats["lb:status:" + name] += 1
+    return None
+
+
+def build_lbkpiece(ck):
+    return ck.build_harness("lbkpiece", ["lbkpiece.cpp"], link_ompl=True, extra=HARNESS_EXTRA)
+
+
+def run_lbkpiece(ck, hbin, p):
+    out, rc, err = ck.run_bin(hbin, lbkpiece_script(p))
+    out = out or []
+    R = lb_parse(out)
+    model = None
+    if R["cfg"] is not None and R["final"] is not None and R["final_st"] is not None:
+        model, rc2, err2 = ck.run_bin(ck.driver(LB_DRIVER), lb_model_script(p, R))
+        if rc2 != 0:
+            raise RuntimeError("model driver drv_lbkpiece failed (rc=%s): %s" % (rc2, (err2 or "")[-800:]))
+    return out, rc, err or "", R, model
+
+
+def lb_compare(R, model):
+    impl = lb_lines(R)
+    if impl is None or model is None:
+        return (0, "<no run>", "<no run>")
+    m = [ln for ln in model if ln != "ok"]
+    if m:
+        mm = re.match(r"final status=(\S+) same=(\d) (.*)$", m[-1])
+        if mm:
+            if mm.group(2) != "1":
+                return (len(m) - 1, "<replay>", "whole-run solve differs from the stepwise replay")
+            m[-1] = "final status=%s %s" % (mm.group(1), mm.group(3))
+    for i in range(max(len(impl), len(m))):
+        a = impl[i] if i < len(impl) else "<missing>"
+        b_ = m[i] if i < len(m) else "<missing>"
+        if a != b_:
+            return (i, a, b_)
+    return None
+
+
+def judge_lbkpiece(ck, hbin, p, tag, pre=None):
+    out, rc, err, R, model = pre if pre is not None else run_lbkpiece(ck, hbin, p)
+    ck.traces_validated += 1
+    stats = collections.Counter()
+    if rc != 0 or R["final"] is None:
+        fail = (0, "harness exited with code %s: %s" % (rc, crash_site(err)))
+    else:
+        fail = lbkpiece_oracle(p, R, stats)
+    ck.case(("lbkpiece", json.dumps(p, sort_keys=True)), stats["lb:iterations-with-removal"] >= 1)
+    ck.count("lb:problems:" + tag)
+    for k, v in stats.items():
+        ck.count(k, v)
+    ck.sample({"generator": "lbkpiece:" + tag, "problem": {k: p[k] for k in ("n", "iters", "mvf", "bf", "seeds")}}, limit=15)
+    d = lb_compare(R, model) if fail is None else None
+    if fail is not None:
+        sig = ("lbkpiece", re.sub(r"-?\d+(\.\d+)?(e-?\d+)?", "N", fail[1])[:50])
+        seen = ck.__dict__.setdefault("_c13_sigs", set())
+        if sig in seen:
+            ck.count("failing-scripts:same-kind-as-reported")
+            return None
+        seen.add(sig)
+
+        def fails(q):
+            o2, rc2, e2, R2, _m = run_lbkpiece(ck, hbin, q)
+            return rc2 != 0 or R2["final"] is None or lbkpiece_oracle(q, R2) is not None
+        q = dict(p)
+        lo_, hi_ = 0, q["iters"]
+        while lo_ < hi_:
+            mid = (lo_ + hi_) // 2
+            if fails(dict(q, iters=mid)):
+                hi_ = mid
+            else:
+                lo_ = mid + 1
+        q["iters"] = lo_
+        o2, rc2, e2, R2, m2 = run_lbkpiece(ck, hbin, q)
+        f2 = lbkpiece_oracle(q, R2) if (rc2 == 0 and R2["final"] is not None) else (0, "harness exited with code %s: %s" % (rc2, crash_site(e2)))
+        what = (f2 or fail)[1]
+        ck.report({"engine": "lbkpiece", "what": re.sub(r"\d+", "N", what)[:160]}, script=["#lbkpiece-problem " + json.dumps(q)] + lbkpiece_script(q),
+                  expected=None, observed=[l[:2000] for l in o2[-6:]], engine="lbkpiece")
+        ck.log("property failure (LBKPIECE1): %s (%d iterations after shrinking)" % (what[:400], q["iters"]))
+        return False
+    if d is not None:
+        ck.disagreements += 1
+        seen = ck.__dict__.setdefault("_c13_dis", set())
+        if "lbkpiece" in seen:
+            ck.count("disagreeing-scripts:same-op-as-reported")
+            return None
+        seen.add("lbkpiece")
+        ck.report({"engine": "lbkpiece", "what": "model/implementation disagreement"},
+                  script=["#lbkpiece-problem " + json.dumps(p)] + lbkpiece_script(p), expected=[d[2][:3000]], observed=[d[1][:3000]],
+                  found_input=False, engine="lbkpiece",
+                  obligation="correspondence lbkpiece: LBKPIECE1.cpp vs OmplModel.Model.LBKPIECE1 (first differing line %d)" % d[0])
+        ck.log("LBKPIECE1: correspondence disagreement at line %d; the oracle holds on this run" % d[0])
+        return False
+    return True
+
+
 # ---------------------------------------------------------------------------------- the check
 HARNESS_EXTRA = ["-isystem", "/usr/include/eigen3"]
 
@@ -1703,6 +2139,7 @@ def setup(ck):
     build(ck)
     build_disc(ck)
     build_kpiece(ck)
+    build_lbkpiece(ck)
 
 
 EXH_CFGS = [
@@ -1750,7 +2187,7 @@ def run(ck):
                    "the oracle recomputes DiscreteMotionValidator's three-argument answer, the projection coordinates and goal distances itself"]
     ck.assumptions += ["KPIECE1: GoalSampleableRegion goal (GoalState); iteration-count termination condition (one evaluation per loop turn)"]
     ck.lean_build(LEAN_TARGETS)
-    ck.audit(roots=["Drv.Grid", "Drv.Discretization", "Drv.KPIECE1"])
+    ck.audit(roots=["Drv.Grid", "Drv.Discretization", "Drv.KPIECE1", "Drv.LBKPIECE1"])
     if ck.tier == "thorough" and ck.lean_ok:
         ck.leanchecker(["OmplModel.Props.C13"])
     hbin = build(ck)
@@ -1826,10 +2263,49 @@ def run(ck):
                     break
                 if judge_kpiece(ck, kbin, p_, tag, pre) is False:
                     bad += 1
+        # ---- engine 4: the real LBKPIECE1 against its model
+        lbin = build_lbkpiece(ck)
+        ljobs = []
+        for fn in sorted(os.listdir(cdir)) if os.path.isdir(cdir) else []:
+            if fn.startswith("lbkpiece-") and fn.endswith(".json"):
+                ljobs.append((json.load(open(os.path.join(cdir, fn))), "corpus"))
+        for i in range(70 if quick else 700):
+            ljobs.append((gen_lbkpiece(ck.rng.fork("lbkpiece%d" % i)), "random"))
+        bad = 0
+        for a in range(0, len(ljobs), chunk):
+            if bad >= 3:
+                break
+            part = ljobs[a:a + chunk]
+            pres = list(ex.map(lambda j: run_lbkpiece(ck, lbin, j[0]), part))
+            for (p_, tag), pre in zip(part, pres):
+                if bad >= 3:
+                    break
+                if judge_lbkpiece(ck, lbin, p_, tag, pre) is False:
+                    bad += 1
     return 0
 
 
 def replay(ck, data):
+    if data["script"][0].startswith("#lbkpiece-problem "):
+        p = json.loads(data["script"][0][len("#lbkpiece-problem "):])
+        hbin = build_lbkpiece(ck)
+        ck.lean_build([LB_DRIVER])
+        out, rc, err, R, model = run_lbkpiece(ck, hbin, p)
+        for ln in out[-8:]:
+            print(ln[:400])
+        if rc != 0 or R["final"] is None:
+            print("harness exit code %s: %s" % (rc, crash_site(err)))
+            return 1
+        fail = lbkpiece_oracle(p, R)
+        if fail:
+            print("PROPERTY FAILS at iteration %d: %s" % fail)
+            return 1
+        d = lb_compare(R, model)
+        if d is not None:
+            print("model and implementation disagree at line %d\n impl:  %s\n model: %s" % (d[0], d[1][:600], d[2][:600]))
+            return 1
+        print("no failure on the current tree")
+        return 0
     if data["script"][0].startswith("#kpiece-problem "):
         p = json.loads(data["script"][0][len("#kpiece-problem "):])
         hbin = build_kpiece(ck)
